@@ -29,6 +29,7 @@ type Case struct {
 	P3    string
 	P2Err string
 	Code  string // Go code generated from Src
+	SameStructure bool // parse(format x) has the same node structure as parse(x)
 }
 
 // Format parses and writes once.
@@ -128,9 +129,99 @@ func Run(in gentie.Input) (cs Case, ok bool) {
 		return cs, true
 	}
 	cs.P2 = p2
+	if tf2, err := parser.ParseString(p1); err == nil {
+		cs.SameStructure = Skeleton(tf) == Skeleton(tf2)
+	}
 	p3, _, err := Format(p2)
 	if err == nil {
 		cs.P3 = p3
 	}
 	return cs, true
+}
+
+// Skeleton renders the node-kind structure of a template file (white space ignored): what the file means to the
+// generator up to expression and text contents.
+func Skeleton(tf parser.TemplateFile) string {
+	var sb strings.Builder
+	var nodes func(ns []parser.Node)
+	attrs := func(as []parser.Attribute) {
+		var walk func(as []parser.Attribute)
+		walk = func(as []parser.Attribute) {
+			for _, a := range as {
+				switch a := a.(type) {
+				case parser.ConditionalAttribute:
+					sb.WriteString("(condattr ")
+					walk(a.Then)
+					sb.WriteString("|")
+					walk(a.Else)
+					sb.WriteString(")")
+				default:
+					fmt.Fprintf(&sb, "%T ", a)
+				}
+			}
+		}
+		walk(as)
+	}
+	nodes = func(ns []parser.Node) {
+		for _, n := range ns {
+			switch n := n.(type) {
+			case parser.Whitespace:
+			case parser.Element:
+				sb.WriteString("(el:" + n.Name + " ")
+				attrs(n.Attributes)
+				nodes(n.Children)
+				sb.WriteString(")")
+			case parser.IfExpression:
+				sb.WriteString("(if ")
+				nodes(n.Then)
+				for _, e := range n.ElseIfs {
+					sb.WriteString("|elif ")
+					nodes(e.Then)
+				}
+				if len(n.Else) > 0 {
+					sb.WriteString("|else ")
+					nodes(n.Else)
+				}
+				sb.WriteString(")")
+			case parser.ForExpression:
+				sb.WriteString("(for ")
+				nodes(n.Children)
+				sb.WriteString(")")
+			case parser.SwitchExpression:
+				sb.WriteString("(switch ")
+				for _, c := range n.Cases {
+					sb.WriteString("|case ")
+					nodes(c.Children)
+				}
+				sb.WriteString(")")
+			case parser.TemplElementExpression:
+				sb.WriteString("(call ")
+				nodes(n.Children)
+				sb.WriteString(")")
+			default:
+				fmt.Fprintf(&sb, "%T ", n)
+			}
+		}
+	}
+	for _, n := range tf.Nodes {
+		if t, ok := n.(parser.HTMLTemplate); ok {
+			sb.WriteString("(templ ")
+			nodes(t.Children)
+			sb.WriteString(")")
+		} else {
+			fmt.Fprintf(&sb, "%T ", n)
+		}
+	}
+	return sb.String()
+}
+
+// Squash collapses runs of blanks inside lines (indentation kept) - used to separate padding growth from layout changes.
+func Squash(s string) string {
+	var out []string
+	for _, l := range strings.Split(s, "\n") {
+		t := strings.TrimLeft(l, "\t ")
+		ind := l[:len(l)-len(t)]
+		out = append(out, ind+strings.Join(strings.Fields(t), " "))
+	}
+	return strings.Join(out, "\n")
 }
